@@ -14,7 +14,9 @@ from bacpypes.appservice import StateMachineAccessPoint, ApplicationServiceAcces
 from bacpypes.netservice import NetworkServiceAccessPoint, NetworkServiceElement
 from bacpypes.local.device import LocalDeviceObject
 from bacpypes.apdu import (ConfirmedPrivateTransferRequest, ConfirmedPrivateTransferACK,
-                           SimpleAckPDU, ComplexAckPDU, ErrorPDU, RejectPDU, AbortPDU, Error)
+                           ConfirmedPrivateTransferError, SimpleAckPDU, ComplexAckPDU, ErrorPDU,
+                           RejectPDU, AbortPDU, Error)
+from bacpypes.basetypes import ErrorType
 from bacpypes.primitivedata import OctetString
 from bacpypes.constructeddata import Any
 from bacpypes.iocb import IOCB
@@ -146,7 +148,11 @@ class _StackMixin:
         if self.pt_mode == "silent":
             return
         if self.pt_mode == "error":
-            self.response(Error(errorClass="services", errorCode="other", context=apdu))
+            err = ConfirmedPrivateTransferError(context=apdu)
+            err.errorType = ErrorType(errorClass="services", errorCode="other")
+            err.vendorID = VENDOR
+            err.serviceNumber = 1
+            self.response(err)
             return
         if self.pt_mode == "reject":
             raise InvalidParameterDatatype("refused by the harness application")
